@@ -26,6 +26,7 @@ extern int fs_fd_file[FS_FD_MAX + 1];   /* -1 closed, else file index */
 extern int fs_bad_fd_ops;               /* operations on descriptors not owned/open */
 extern int fs_opens, fs_closes, fs_pwrites, fs_short_writes, fs_write_errors;
 extern int fs_short_writes_max;
+extern int fs_fail_errno;
 extern int fs_faults_enabled;           /* harness: allow open/pwrite failures */
 extern int fs_fail_pwrite_from;         /* persistent failure from this pwrite index (-1: none) */
 extern int fs_fail_pwrite_at;           /* one-shot failure at this pwrite index (-1: none) */
